@@ -149,7 +149,13 @@ def run(ctx):
         stmts, T, parts, exp = C09.gen_tables(ctx, same_names_as=(prev[2] if prev and it % 2 else None))
         text = L.render(stmts)
         wit = {"kind": "generated", "text": text}
-        ok, res = ctx.guard("parse", wit, snapshot.make_parser, text)
+        if it % 4 == 1:
+            # the same statements given to the file constructor as several files (str or Path), every part but the last without a final line end
+            ok, res = ctx.guard("parse-part-files", wit, snapshot.parse_as_part_files, ctx, text)
+            if ok:
+                wit = {**wit, **res[2]}
+        else:
+            ok, res = ctx.guard("parse", wit, snapshot.make_parser, text)
         if not ok:
             continue
         for j, m in enumerate(parts[: ctx.pick(4, 6)] + list(exp["derived"])[:1]):
